@@ -672,7 +672,25 @@ func c11R4(p *Prog, r *Report, sites []*relaySite) {
 						v = exprStr(fc.ResolveUp(sel.X)) + "." + sel.Sel.Name + "()"
 					}
 				}
-				return strings.HasSuffix(v, ".serverConn") || strings.HasPrefix(v, "serverConn.") || strings.Contains(v, ".serverConn.")
+				if strings.HasSuffix(v, ".serverConn") || strings.HasPrefix(v, "serverConn.") || strings.Contains(v, ".serverConn.") {
+					return true
+				}
+				// the receive function's own socket parameter (or a write half made from it),
+				// whatever it is called
+				base := ast.Unparen(e)
+				if c, ok := base.(*ast.CallExpr); ok {
+					if sel, ok := ast.Unparen(c.Fun).(*ast.SelectorExpr); ok {
+						base = ast.Unparen(sel.X)
+					}
+				}
+				if o := objOf(info, fc.ResolveUp(base)); o != nil {
+					for i := 0; rf.ParamObj(i) != nil; i++ {
+						if rf.ParamObj(i) == o && strings.HasSuffix(namedTypeName(o.Type()), "Conn") {
+							return true
+						}
+					}
+				}
+				return false
 			},
 			"serverConnPacker": func(e ast.Expr) bool { return packerVar != nil && objOf(info, e) == packerVar },
 			"clientAddrInfo":   ofEntry,
